@@ -201,6 +201,8 @@ type H struct {
 	steps   int
 	noops   int
 	rs      *rand.Rand // scenario choices (the same for a crash history and its crash-free twin)
+	focus int
+	script []op
 	twin    string     // outcome summary of the crash-free twin ("" = none)
 	raw     map[configapi.ConfigurationID]_map.Map[string, *configapi.PathValue]
 }
@@ -892,7 +894,43 @@ func (h *H) connsOf(t string) []string {
 var paths = []string{"/a/b", "/a/bc", "/a/c", "/a/d/e", "/z", "/l[k=1]/v", "/l[k=1]/w", "/l[k=10]/v", "/l[k=2]/v"}
 var delPaths = []string{"/a/b", "/a", "/a/c", "/a/d", "/z", "/l[k=1]", "/l[k=1]/v", "/l", "/a/bc", "/l[k=10]"}
 
+// focused histories: every northbound operation works on one small family of nested paths of one target, half of the
+// operations are deletes - nested tombstones, re-creation beneath them, rollbacks of both
+var focusPaths = [][]string{nil, {"/a/d/e", "/a/b", "/a/d/f/g", "/a/d/f/h"}, {"/l[k=1]/v", "/l[k=1]/w", "/l[k=10]/v", "/l[k=1]/m/n"}}
+var focusDels = [][]string{nil, {"/a", "/a/d", "/a/d/f", "/a/d/e"}, {"/l", "/l[k=1]", "/l[k=1]/m", "/l[k=1]/v"}}
+
+func (h *H) genFocusOps(bad bool) []op {
+	r := h.rs
+	t := h.targets[0]
+	if len(h.script) > 0 && !bad {
+		o := h.script[0]
+		h.script = h.script[1:]
+		o.target = t
+		return []op{o}
+	}
+	if r.Intn(2) == 0 {
+		return []op{{target: t, path: env.Pick(r, focusDels[h.focus]), del: true}}
+	}
+	ops := []op{}
+	used := map[string]bool{}
+	for i := 0; i < 1+r.Intn(2); i++ {
+		p := env.Pick(r, focusPaths[h.focus])
+		if used[p] {
+			continue
+		}
+		used[p] = true
+		ops = append(ops, op{target: t, path: p, val: fmt.Sprintf("v%d", r.Intn(1000))})
+	}
+	if bad {
+		ops[len(ops)-1].val = "BADx"
+	}
+	return ops
+}
+
 func (h *H) genOps(maxTargets int, bad bool) []op {
+	if h.focus > 0 {
+		return h.genFocusOps(bad)
+	}
 	r := h.rs
 	nt := 1 + r.Intn(maxTargets)
 	ts := r.Perm(len(h.targets))[:min(nt, len(h.targets))]
@@ -1171,6 +1209,20 @@ func runScenario(seed int64, n int, out *bufio.Writer, kind string, suffix strin
 	h.rs = rand.New(rand.NewSource(seed*104729 + int64(n)))
 	h.twin = twin
 	r := h.rs
+	if n%4 == 3 {
+		h.focus = 1 + int(n/4)%2
+		if (n/8)%2 == 1 {
+			// scripted opening: a leaf, tombstones stacked from the outside in, the leaf again (re-creation beneath
+			// nested tombstones); the rest of the history is random over the same family
+			chain := [][]string{nil, {"/a/d/f/g", "/a", "/a/d", "/a/d/f"}, {"/l[k=1]/m/n", "/l", "/l[k=1]", "/l[k=1]/m"}}[h.focus]
+			h.script = []op{{path: chain[0], val: fmt.Sprintf("v%d", r.Intn(1000))}}
+			depth := 2 + r.Intn(2)
+			for _, d := range chain[1 : 1+depth] {
+				h.script = append(h.script, op{path: d, del: true})
+			}
+			h.script = append(h.script, op{path: chain[0], val: fmt.Sprintf("v%d", r.Intn(1000))})
+		}
+	}
 	deterministic := kind == "crash" || kind == "twin" // no device error bursts: which request meets them depends on the schedule
 	fmt.Fprintf(out, "p2.hist\t%s\t%s\t%s\n", hid, kind, h.dump())
 	h.lastState = h.dump()
@@ -1186,6 +1238,9 @@ func runScenario(seed int64, n int, out *bufio.Writer, kind string, suffix strin
 	}
 	h.randomSteps(h.r.Intn(6), 0)
 	nev := 2 + r.Intn(5)
+	if h.focus > 0 {
+		nev = 5 + r.Intn(4) + len(h.script)
+	}
 	if kind == "atomic" && n%97 == 90 { // only reached in the thorough tier (n >= 91): a fully traced history costs ~2 min of checking
 		// one Set whose value is larger than the plugin's chunk size (100 kB): the validation document is streamed in
 		// several chunks; lengths around the boundaries 100000 / 200000 and in between (property C05, p2.chunks)
@@ -1204,6 +1259,34 @@ func runScenario(seed int64, n int, out *bufio.Writer, kind string, suffix strin
 		h.nbSet([]op{{target: h.targets[0], path: "/q", val: fmt.Sprintf("v%d", r.Intn(1000))}}, true, false)
 		h.randomSteps(16, 0)
 		nev = 0
+	}
+	if kind == "atomic" && n%16 == 5 {
+		// scripted: the device side lags behind the committed side.  A value is applied, the device becomes unreachable,
+		// a delete of an ancestor and a new value beneath it are committed, the device comes back and catches up, then
+		// its connection is replaced once more (complete re-push of the applied values in a new term)
+		t := h.targets[0]
+		fam := [][]string{{"/a/b", "/a", "/a/c"}, {"/l[k=1]/v", "/l", "/l[k=2]/v"}, {"/a/d/e", "/a/d", "/a/d/f/g"}}[r.Intn(3)]
+		if len(h.connsOf(t)) == 0 {
+			h.connUp(t)
+		}
+		h.nbSet([]op{{target: t, path: fam[0], val: fmt.Sprintf("v%d", r.Intn(1000))}}, false, false)
+		h.settle(40, 0)
+		for _, c := range h.connsOf(t) {
+			h.connDown(c)
+		}
+		h.settle(40, 0)
+		h.nbSet([]op{{target: t, path: fam[1], del: true}}, false, false)
+		h.randomSteps(20, 0)
+		h.nbSet([]op{{target: t, path: fam[2], val: fmt.Sprintf("v%d", r.Intn(1000))}}, false, false)
+		h.settle(40, 0)
+		h.connUp(t)
+		h.settle(60, 0)
+		for _, c := range h.connsOf(t) {
+			h.connDown(c)
+		}
+		h.settle(40, 0)
+		h.connUp(t)
+		nev = r.Intn(2)
 	}
 	for ev := 0; ev < nev; ev++ {
 		switch k := r.Intn(20); {
